@@ -289,14 +289,15 @@ package fox
 //@   assume-at after (*Pool).Get#1 : pool-type: dyntypeIs(call_result, *cTx)
 //@   requires fox != nil && published[&fox.tree] != nil
 //@   assume-at call (*cTx).resetNil#1 : pool-discipline: c != nil && c.params != nil && c.tsrParams != nil && c.skipNds != nil
-//@   modifies heap, unlockedLoads[&fox.tree], released
+//@   modifies heap, unlockedLoads[&fox.tree], released, poolOut
+//@   ensures @C16,C06 pool-balance: poolOut[&old(published[&fox.tree]).ctx] == old(poolOut[&published[&fox.tree].ctx])
 //@   ensures nolock: held[&fox.mu] == old(held[&fox.mu]) && lockOps[&fox.mu] == old(lockOps[&fox.mu]) && pubCount[&fox.tree] == old(pubCount[&fox.tree])
 //@   ensures one-load: unlockedLoads[&fox.tree] == old(unlockedLoads[&fox.tree]) + (held[&fox.mu] ? 0 : 1)
 //@   ensures found: result != nil ==> result == old(selNode(published[&fox.tree], method, splitHost(pattern), splitPath(pattern)).route) && !old(selTsr(published[&fox.tree], method, splitHost(pattern), splitPath(pattern)))
 
 //@ func (*Router).Has props C06,C05
 //@   requires fox != nil && published[&fox.tree] != nil
-//@   modifies heap, unlockedLoads[&fox.tree], released
+//@   modifies heap, unlockedLoads[&fox.tree], released, poolOut
 //@   ensures nolock: held[&fox.mu] == old(held[&fox.mu]) && lockOps[&fox.mu] == old(lockOps[&fox.mu]) && pubCount[&fox.tree] == old(pubCount[&fox.tree])
 //@   ensures one-load: unlockedLoads[&fox.tree] == old(unlockedLoads[&fox.tree]) + (held[&fox.mu] ? 0 : 1)
 
@@ -304,7 +305,8 @@ package fox
 //@   assume-at after (*Pool).Get#1 : pool-type: dyntypeIs(call_result, *cTx)
 //@   requires fox != nil && published[&fox.tree] != nil
 //@   assume-at call (*cTx).resetNil#1 : pool-discipline: c != nil && c.params != nil && c.tsrParams != nil && c.skipNds != nil
-//@   modifies heap, unlockedLoads[&fox.tree], released
+//@   modifies heap, unlockedLoads[&fox.tree], released, poolOut
+//@   ensures @C16,C06 pool-balance: poolOut[&old(published[&fox.tree]).ctx] == old(poolOut[&published[&fox.tree].ctx])
 //@   ensures nolock: held[&fox.mu] == old(held[&fox.mu]) && lockOps[&fox.mu] == old(lockOps[&fox.mu]) && pubCount[&fox.tree] == old(pubCount[&fox.tree])
 //@   ensures one-load: unlockedLoads[&fox.tree] == old(unlockedLoads[&fox.tree]) + (held[&fox.mu] ? 0 : 1)
 
@@ -312,7 +314,8 @@ package fox
 //@   assume-at after (*Pool).Get#1 : pool-type: dyntypeIs(call_result, *cTx)
 //@   requires fox != nil && published[&fox.tree] != nil && r != nil && r.URL != nil
 //@   assume-at call (*cTx).resetWithWriter#1 : pool-discipline: c != nil && c.params != nil && c.tsrParams != nil && c.skipNds != nil
-//@   modifies heap, unlockedLoads[&fox.tree], released
+//@   modifies heap, unlockedLoads[&fox.tree], released, poolOut
+//@   ensures @C16,C12 pool-balance: poolOut[&old(published[&fox.tree]).ctx] == old(poolOut[&published[&fox.tree].ctx]) + (route != nil ? 1 : 0)
 //@   ensures nolock: held[&fox.mu] == old(held[&fox.mu]) && lockOps[&fox.mu] == old(lockOps[&fox.mu]) && pubCount[&fox.tree] == old(pubCount[&fox.tree])
 //@   ensures one-load: unlockedLoads[&fox.tree] == old(unlockedLoads[&fox.tree]) + (held[&fox.mu] ? 0 : 1)
 //@   ensures selected: old(sn(fox, r)) != nil ==> route == old(sn(fox, r).route)
@@ -344,7 +347,7 @@ package fox
 //@   requires safety-tree: heapWF() && (txn.rootTxn != nil ==> len(txn.rootTxn.root) >= verb && (forall j int :: {txn.rootTxn.root[j]} 0 <= j && j < len(txn.rootTxn.root) ==> txn.rootTxn.root[j] != nil)) && len(pattern) < 4294967294
 //@   requires txn != nil && txn.fox != nil && (txn.rootTxn != nil ==> txn.rootTxn.tree != nil)
 //@   panics-when txn.rootTxn == nil
-//@   modifies heap, released
+//@   modifies heap, released, poolOut
 //@   ensures quiet: txnQuiet(txn)
 
 //@ func (*Txn).Route props C04,C06
@@ -354,7 +357,7 @@ package fox
 //@   requires txn != nil && txn.fox != nil && (txn.rootTxn != nil ==> txn.rootTxn.tree != nil)
 //@   assume-at call (*cTx).resetNil#1 : pool-discipline: c != nil && c.params != nil && c.tsrParams != nil && c.skipNds != nil && c.params != c.tsrParams
 //@   panics-when txn.rootTxn == nil
-//@   modifies heap, released
+//@   modifies heap, released, poolOut
 //@   ensures quiet: txnQuiet(txn)
 //@   ensures own-root: txn.rootTxn == old(txn.rootTxn) && txn.rootTxn.root == old(txn.rootTxn.root) && txn.rootTxn.size == old(txn.rootTxn.size)
 
@@ -365,7 +368,7 @@ package fox
 //@   requires txn != nil && txn.fox != nil && (txn.rootTxn != nil ==> txn.rootTxn.tree != nil)
 //@   assume-at call (*cTx).resetNil#1 : pool-discipline: c != nil && c.params != nil && c.tsrParams != nil && c.skipNds != nil && c.params != c.tsrParams
 //@   panics-when txn.rootTxn == nil
-//@   modifies heap, released
+//@   modifies heap, released, poolOut
 //@   ensures quiet: txnQuiet(txn)
 //@   ensures own-root: txn.rootTxn == old(txn.rootTxn) && txn.rootTxn.root == old(txn.rootTxn.root) && txn.rootTxn.size == old(txn.rootTxn.size)
 
@@ -376,7 +379,7 @@ package fox
 //@   requires txn != nil && txn.fox != nil && r != nil && r.URL != nil && (txn.rootTxn != nil ==> txn.rootTxn.tree != nil)
 //@   assume-at call (*cTx).resetWithWriter#1 : pool-discipline: c != nil && c.params != nil && c.tsrParams != nil && c.skipNds != nil && c.params != c.tsrParams
 //@   panics-when txn.rootTxn == nil
-//@   modifies heap, released
+//@   modifies heap, released, poolOut
 //@   ensures quiet: txnQuiet(txn)
 //@   ensures current-request: route != nil ==> cc != nil && dyntypeIs(cc, *cTx) && ctxOf(cc).req == r && ctxOf(cc).route == route && ctxOf(cc).tsr == tsr && ctxOf(cc).scope == RouteHandler && !released[cc]
 //@   ensures none: route == nil ==> cc == nil
